@@ -82,15 +82,40 @@ package bech32
 //@   ensures#val forall j in 0..6 :: ret[j] == (xor32(polyb(cat(hrpx(hrp), old(bytes(data)), zeros(6))), 1) / pow2(5 * (5 - j))) % 32   [C09]
 //@   fresh ret
 
+//@ func convertBits(data, frombits, tobits, pad) (ret, err)
+//@   requires 1 <= frombits && frombits <= 8 && 1 <= tobits && tobits <= 8
+//@   loop 1 invariant -1 <= rangeindex && rangeindex < len(data) && bits < tobits && 1 <= frombits && frombits <= 8 && 1 <= tobits && tobits <= 8 && maxv == pow2(tobits) - 1 && unchanged(data) && (rg(ret) == 0 || disjoint(ret, data))
+//@   loop 1 invariant#syms forall j in 0..len(ret) :: 0 <= ret[j] && ret[j] <= maxv                                        [C09 C14]
+//@   loop 1 decreases len(data) - rangeindex
+//@   loop 2 invariant -1 <= rangeindex && rangeindex < len(data) && bits < tobits + frombits && 1 <= frombits && frombits <= 8 && 1 <= tobits && tobits <= 8 && maxv == pow2(tobits) - 1 && unchanged(data) && (rg(ret) == 0 || disjoint(ret, data))
+//@   loop 2 invariant#syms forall j in 0..len(ret) :: 0 <= ret[j] && ret[j] <= maxv                                        [C09 C14]
+//@   loop 2 decreases bits
+//@   ensures#nil err != nil ==> ret == nil                                                                                  [C09 C14]
+//@   ensures#syms err == nil ==> (forall j in 0..len(ret) :: 0 <= ret[j] && ret[j] < pow2(tobits))                          [C09 C14]
+//@   fresh ret when len(ret) > 0
+//@   modifies nothing
+
 //@ func Decode(s) (hrp, data, err)
-//@   loop 1 invariant 0 <= $pos && $pos <= len(hrp) && (forall j in 0..$pos :: 33 <= at(hrp, j) && at(hrp, j) <= 126)
-//@   loop 1 decreases len(hrp) - $pos
-//@   loop 2 invariant 0 <= $pos && $pos <= len(s) - pos - 1 && len(data) == $pos && 1 <= pos && pos + 7 <= len(s)
-//@   loop 2 invariant#ascii forall j in 0..$pos :: at(s, pos + 1 + j) < 128                            [C09 C14]
-//@   loop 2 invariant#syms forall j in 0..$pos :: 0 <= data[j] && data[j] < 32                         [C09 C14]
-//@   loop 2 decreases len(s) - $pos
+//@   loop 1 invariant 0 <= $pos && $pos <= len(s) && (forall j in 0..$pos :: 33 <= at(s, j) && at(s, j) <= 126)
+//@   loop 1 decreases len(s) - $pos
+//@   loop 2 invariant 0 <= $pos && $pos <= len(hrp) && (forall j in 0..$pos :: 33 <= at(hrp, j) && at(hrp, j) <= 126)
+//@   loop 2 decreases len(hrp) - $pos
+//@   loop 3 invariant 0 <= $pos && $pos <= len(s) - pos - 1 && len(data) == $pos && 1 <= pos && pos + 7 <= len(s)
+//@   loop 3 invariant#syms forall j in 0..$pos :: 0 <= data[j] && data[j] < 32                         [C09 C14]
+//@   loop 3 decreases len(s) - $pos
 //@   ensures#nil err != nil ==> hrp == "" && data == nil                                               [C09 C14]
 //@   ensures#ascii err == nil ==> printable(old(s))                                                    [C09 C14]
 //@   ensures#case err == nil ==> (nolower(old(s)) || noupper(old(s)))                                  [C09]
 //@   ensures#hrp err == nil ==> len(hrp) >= 1 && printable(hrp) && hasprefix(old(s), hrp) && len(hrp) + 7 <= len(old(s)) && at(old(s), len(hrp)) == 49   [C09]
 //@   ensures#lastsep err == nil ==> (forall j in len(hrp)+1..len(old(s)) :: at(old(s), j) != 49)        [C09]
+
+//@ func Encode(hrp, data) (s, err)
+//@   loop 1 invariant 0 <= $pos && $pos <= len(hrp) && (forall j in 0..$pos :: 33 <= at(hrp, j) && at(hrp, j) <= 126)
+//@   loop 1 decreases len(hrp) - $pos
+//@   loop 2 invariant -1 <= rangeindex && rangeindex < len(values) && (forall j in 0..len(values) :: 0 <= values[j] && values[j] < 32)
+//@   loop 2 decreases len(values) - rangeindex
+//@   loop 3 invariant -1 <= rangeindex && rangeindex < len($ranged) && (forall j in 0..len($ranged) :: 0 <= $ranged[j] && $ranged[j] < 32)
+//@   loop 3 decreases len($ranged) - rangeindex
+//@   call convertBits#1 requires same(arg0, data) && arg1 == 8 && arg2 == 5 && arg3                                     [C09]
+//@   ensures#hrp err == nil ==> len(hrp) >= 1 && printable(hrp) && (nolower(hrp) || noupper(hrp))                       [C09]
+//@   ensures#nil err != nil ==> s == ""                                                                                [C09]
